@@ -593,8 +593,13 @@ func ExecutePlan(plan *Plan, p ExecuteParams) (result *Result) {
 	go func() {
 		out := &Result{}
 		simYieldCtx(ctx, "plan.exec.start")
+		var eCtx *executionContext
 		defer func() {
 			if err := recover(); err != nil {
+				// keep the errors recorded before the failure reached the root
+				if eCtx != nil {
+					out.Errors = append(out.Errors, eCtx.Errors...)
+				}
 				if e, ok := err.(error); ok {
 					out.Errors = append(out.Errors, gqlerrors.FormatError(e))
 				} else {
@@ -618,7 +623,7 @@ func ExecutePlan(plan *Plan, p ExecuteParams) (result *Result) {
 			return
 		}
 
-		eCtx := &executionContext{
+		eCtx = &executionContext{
 			Schema:         execSchema,
 			Fragments:      plan.fragments,
 			Root:           p.Root,
